@@ -181,6 +181,14 @@ impl<F> FuturesUnorderedBounded<F> {
     }
 }
 
+#[cfg(futures_buffered_verif)]
+impl<F> FuturesUnorderedBounded<F> {
+    /// Verification only: address of the shared waker block.
+    pub fn verif_block(&self) -> usize {
+        self.shared.verif_base()
+    }
+}
+
 type PollFn<F, O> = fn(Pin<&mut F>, cx: &mut Context<'_>) -> Poll<O>;
 
 impl<F> FuturesUnorderedBounded<F> {
